@@ -17,14 +17,14 @@ import (
 	"sort"
 	"strings"
 
-	"github.com/PapaCharlie/go-restli/v2/restlicodec"
-
 	"verifh/bridge"
 	"verifh/codec"
 	"verifh/corpus"
 	"verifh/ev"
 	"verifh/gen/all"
 	"verifh/model"
+	"verifh/props/c07/gen1"
+	"verifh/props/c07/gen2"
 	"verifh/refcodec"
 	"verifh/rig"
 )
@@ -56,8 +56,13 @@ func collectPaths(s *corpus.Schema, t corpus.TypeExpr, v *model.Value, prefix []
 			}
 		}
 	case model.KMap:
-		for k, e := range v.Entries {
-			collectPaths(s, *et.Map, e, add(k), out, depth+1)
+		keys := make([]string, 0, len(v.Entries))
+		for k := range v.Entries {
+			keys = append(keys, k)
+		}
+		sort.Strings(keys) // the case list must not depend on Go's map iteration order
+		for _, k := range keys {
+			collectPaths(s, *et.Map, v.Entries[k], add(k), out, depth+1)
 		}
 		if len(v.Entries) > 0 {
 			add("*")
@@ -104,197 +109,9 @@ func specText(spec [][]string) []string {
 	return out
 }
 
-func wildcardify(p []string, rng *rand.Rand) []string {
-	c := append([]string{}, p...)
-	if len(c) > 1 && rng.Intn(3) == 0 {
-		c[rng.Intn(len(c)-1)] = "*" // never the last segment: a terminal wildcard on array items is left unspecified
-	}
-	return c
-}
-
-func codecLevel(run *ev.Run, set *bridge.Set, rng *rand.Rand, perType int) {
-	s := set.Schema
-	g := model.NewGen(s, rng)
-	g.Hostile = 0.05
-	g.MaxElems = 3
-	for _, td := range s.Types {
-		if td.Kind != "record" {
-			continue
-		}
-		full := td.FullName()
-		t := corpus.R(full)
-		for i := 0; i < perType; i++ {
-			v := g.Value(t, 0)
-			var paths [][]string
-			collectPaths(s, t, v, nil, &paths, 0)
-			var usable [][]string
-			for _, p := range paths {
-				if validSpecPath(p) && p[len(p)-1] != "*" {
-					usable = append(usable, p)
-				}
-			}
-			for k := 0; k < 6; k++ {
-				var spec [][]string
-				n := 1 + rng.Intn(3)
-				for j := 0; j < n; j++ {
-					switch {
-					case len(usable) > 0 && rng.Intn(5) != 0:
-						spec = append(spec, wildcardify(usable[rng.Intn(len(usable))], rng))
-					default:
-						spec = append(spec, []string{"noSuchField", "x"}[:1+rng.Intn(2)])
-					}
-				}
-				texts := specText(spec)
-				ps := restlicodec.NewPathSpec(texts...)
-				want := refcodec.Prune(s, t, v, texts)
-				carries := !model.Equal(want, v)
-				desc := map[string]any{"generation": "v2", "set": set.Name, "type": full, "spec": texts, "value": trunc(model.Show(v)), "expected_pruned": trunc(model.Show(want))}
-				shape := specShape(spec)
-				// ---- writer side
-				p, err := codec.BuildGo(set, full, v)
-				if err != nil {
-					run.Inconclusive("bridge: " + err.Error())
-					continue
-				}
-				for _, wf := range []struct {
-					name string
-					w    restlicodec.Writer
-					json bool
-				}{
-					{"json", restlicodec.NewCompactJsonWriterWithExcludedFields(ps), true},
-					{"json-pretty", restlicodec.NewPrettyJsonWriterWithExcludedFields(ps), true},
-					{"ror2-header", restlicodec.NewRor2HeaderWriterWithExcludedFields(ps), false},
-				} {
-					run.Eval(1)
-					run.Count("writer_cases", 1)
-					doc, err := codec.EncodeWith(wf.w, p)
-					if err != nil {
-						desc["error"] = err.Error()
-						run.Violation("v2/writer/"+wf.name+"/error/"+shape, desc)
-						continue
-					}
-					var got *model.Value
-					if wf.json {
-						got, err = refcodec.DecodeJSON(s, t, []byte(doc), refcodec.DecodeOpts{})
-					} else {
-						got, err = refcodec.DecodeROR2(s, t, doc, refcodec.Header, refcodec.DecodeOpts{})
-					}
-					desc["output"] = trunc(doc)
-					if err != nil {
-						desc["error"] = err.Error()
-						run.Violation("v2/writer/"+wf.name+"/output-unparsable/"+shape, desc)
-						continue
-					}
-					if d := model.Diff(want, got, ""); d != "" {
-						desc["detail"] = d
-						kind := "dropped-too-much"
-						if strings.Contains(d, "vs <absent>") == false && leaked(want, got) {
-							kind = "excluded-value-leaked"
-						}
-						run.Violation("v2/writer/"+wf.name+"/"+kind+"/"+shape, desc)
-						continue
-					}
-					if carries {
-						run.Distinct(fmt.Sprintf("w|%s|%s|%v", full, wf.name, texts))
-					}
-				}
-				// ---- reader side
-				for _, rf := range []string{"json", "ror2", "untyped"} {
-					for _, pruned := range []bool{false, true} {
-						src := v
-						if pruned {
-							src = want
-						}
-						tree := refcodec.ToTree(s, t, src)
-						var r restlicodec.Reader
-						var doc string
-						switch rf {
-						case "json":
-							doc = refcodec.TreeJSON(tree, rng)
-							r, err = restlicodec.NewJsonReaderWithExcludedFields([]byte(doc), ps, 0)
-						case "ror2":
-							doc = refcodec.TreeROR2(tree, refcodec.Header, rng)
-							r, err = restlicodec.NewRor2ReaderWithExcludedFields(doc, ps, 0)
-						default:
-							doc = fmt.Sprint(tree)
-							r = restlicodec.NewInterfaceReaderWithExcludedFields(tree, ps, 0)
-						}
-						if err != nil {
-							continue
-						}
-						run.Eval(1)
-						run.Count("reader_cases", 1)
-						q := set.New(full)
-						_, derr := codec.DecodeWith(r, q)
-						rd := map[string]any{"generation": "v2", "set": set.Name, "type": full, "spec": texts, "reader": rf, "document": trunc(doc), "document_carries_excluded_value": carries && !pruned}
-						_, isExcl := derr.(restlicodec.ExcludedFieldError)
-						if derr != nil {
-							rd["error"] = derr.Error()
-						}
-						switch {
-						case derr != nil && isPanic(derr):
-							run.Violation("v2/reader/"+rf+"/panic/"+shape, rd)
-						case carries && !pruned && !isExcl:
-							run.Violation("v2/reader/"+rf+"/excluded-value-accepted/"+shape, rd)
-						case (!carries || pruned) && derr != nil:
-							if _, miss := codec.IsMissingFields(derr); miss {
-								run.Violation("v2/reader/"+rf+"/excluded-required-field-reported-missing/"+shape, rd)
-							} else {
-								run.Violation("v2/reader/"+rf+"/clean-document-rejected/"+shape, rd)
-							}
-						case derr == nil:
-							got, err := set.Read(q.Elem(), t)
-							exp := refcodec.Zeroize(s, t, refcodec.FillDefaults(s, t, src))
-							if err == nil {
-								if d := model.Diff(exp, got, ""); d != "" {
-									rd["detail"] = d
-									run.Violation("v2/reader/"+rf+"/value-differs/"+shape, rd)
-									continue
-								}
-							}
-							run.Distinct(fmt.Sprintf("r|%s|%s|%v|%v", full, rf, texts, pruned))
-						default:
-							run.Distinct(fmt.Sprintf("r|%s|%s|%v|rejected", full, rf, texts))
-						}
-					}
-				}
-				if i == 0 && k == 0 {
-					run.Sample(desc)
-				}
-			}
-		}
-	}
-}
-
 func isPanic(err error) bool { _, ok := err.(*codec.PanicError); return ok }
 
 // leaked: got has something want has not.
-func leaked(want, got *model.Value) bool {
-	return model.Diff(want, got, "") != "" && !strings.Contains(model.Diff(got, want, ""), "vs <absent>") || strings.Contains(model.Diff(want, got, ""), "<absent> vs")
-}
-
-func specShape(spec [][]string) string {
-	depth, wild := 0, false
-	for _, p := range spec {
-		if len(p) > depth {
-			depth = len(p)
-		}
-		for _, seg := range p {
-			if seg == "*" {
-				wild = true
-			}
-		}
-	}
-	s := fmt.Sprintf("%d-paths+depth-%d", len(spec), depth)
-	if wild {
-		s += "+wildcard"
-	}
-	return s
-}
-
-// ---------------------------------------------------------------------------------------------
-// wire level
-
 func bodyCarries(tree any, path []string) bool {
 	if len(path) == 0 {
 		return true
@@ -686,17 +503,12 @@ func main() {
 	run.Rule("codec level: (record type, value, exclusion spec of 1-3 paths of depth <= 4 drawn from the key paths occurring in the value, with wildcards in non-final positions, plus non-occurring names) -> writers WithExcludedFields (JSON compact/pretty, ROR2) must emit exactly prune(value, spec); " +
 		"readers WithExcludedFields (JSON, ROR2, untyped) must reject the unpruned document iff it carries a value at a matching path and accept the pruned one without reporting excluded required fields; " +
 		"wire level: annotated kitchen-sink resources x {create, batch_create, update, batch_update, partial_update, batch_partial_update}: tapped client bodies, client-side failure of patches touching excluded fields, raw requests carrying excluded fields -> 400 and no invocation. distinct = distinct (type/resource, spec/method, side)")
-	run.Assume("a wildcard as the last segment applied to array items is left unspecified (specs are drawn with wildcards in non-final positions only)", "v2 generation only")
+	run.Assume("a wildcard as the last segment applied to array items is left unspecified (specs are drawn with wildcards in non-final positions only)", "both generations: the root module through types-only bindings written by its own generator from the same schema sets")
 	rng := rand.New(rand.NewSource(run.Seed + 77))
-	for _, set := range all.Sets {
-		if err := set.SelfCheck(model.NewGen(set.Schema, rand.New(rand.NewSource(run.Seed+7))), 5); err != nil {
-			run.Inconclusive("bridge self-check failed: " + err.Error())
-			run.Finish()
-		}
-		codecLevel(run, set, rng, run.Pick(8, 80))
-	}
+	gen2.CodecLevel(run, rng, run.Pick(8, 80))
+	gen1.CodecLevel(run, rand.New(rand.NewSource(run.Seed+77)), run.Pick(8, 80))
 	wireLevel(run, all.Sets[0], rng, run.Pick(10, 100))
-	run.Set("generations", []string{"v2"})
+	run.Set("generations", []string{"v2", "root (codec level)"})
 	run.Require("writer_cases", 500)
 	run.Require("reader_cases", 500)
 	run.Require("wire.client_requests", 20)
